@@ -96,6 +96,11 @@ func generate(g *Gen, prop string, n int) {
 		for i := 0; i < n; i++ {
 			g.genStoreHistory(p, maxOps)
 		}
+	case "C01", "C02", "C10", "C11", "C12", "C13", "C14", "C15", "C16", "C05k":
+		p := strings.TrimSuffix(prop, "k")
+		for i := 0; i < n; i++ {
+			g.genSketchHistory(p)
+		}
 	case "C18":
 		g.genCodec(n)
 	default:
